@@ -46,7 +46,8 @@ TRUSTED = [
 ]
 ASSUMPTIONS = [
     "programs: pure tasks with int arguments and nested-list results, no context, no File/Handle values, every job "
-    "records provenance (prov=True), default cache_scope; check_valid in {full, shallow}",
+    "records provenance (prov=True), default cache_scope; check_valid in {full, shallow}; plus one corpus program with a "
+    "shallow parent over prov=False children (record_call_node records their Task values itself)",
     "edits are version bumps (task hash derived from `version`), reverts restore the old hash",
     "process death = loss of everything not committed; the sqlite file after the last successful commit is what "
     "the next process sees (no torn pages)",
@@ -164,6 +165,41 @@ def witness_cases(ctx, env, flags):
         c.prog.edit(0)
         c.run(1)
     scenario("twin-import", twin_import)
+
+    # shallow parent over prov=False children: record_call_node itself records the children's Task values (one
+    # commit each) between the CallNode and its subtree rows.  Every commit of that record_call_node as crash point
+    # and as fault position; then each child is edited in turn on a copy of the resulting database.
+    np_info = {}
+
+    def np_clean(c):
+        c.prog = ctl_db.NoProvProgram()
+        c.run(0)
+        np_info["range"] = ctl_db.commit_range_of(c, "record_call_node", 0)
+    scenario("noprov-clean", np_clean)
+    lo, hi = np_info.get("range") or (1, 0)
+
+    def np_children(c, r):
+        base = list(c.prog.versions)
+        for i in range(1, c.prog.n):
+            c.prog.versions = list(base)
+            c.prog.edit(i)
+            c.branch(r, r + i)
+            c.run(r + i)
+    for k in range(lo, hi + 2):
+        def np_crash(c, k=k):
+            c.prog = ctl_db.NoProvProgram()
+            c.disturb.append("crash")
+            c.run(0, crash_at=k)
+            c.run(0)
+            np_children(c, 0)
+        scenario(f"noprov-crash@{k}", np_crash)
+    for k in range(lo, hi + 1):
+        def np_fault(c, k=k):
+            c.prog = ctl_db.NoProvProgram()
+            c.disturb.append("fault")
+            c.run(0, fault_k=k)
+            np_children(c, 0)
+        scenario(f"noprov-fault@{k}", np_fault)
     return out
 
 
@@ -217,7 +253,7 @@ def run(ctx):
         if not flags["cseSubtreeFromDb"]:
             ctx.expect_known(SIGS["cseSubtreeFromDb"][0], True, twin_case, SIGS["cseSubtreeFromDb"][1])
         cases = witness_cases(ctx, env, flags)
-        for i in range(ctx.n(16, 220)):
+        for i in range(ctx.n(12, 220)):
             c = ctl_db.guarded(ctx, f"gen{i}", lambda i=i: gen_case(ctx, env, flags, i))
             if c is not None:
                 cases.append(c)
